@@ -26,6 +26,9 @@ CFG = {
         thorough=6000,
         fault_rates=(0.0,),  # solver faults are the business of C02/C03/C09/C10
         need=dict(decided=("C01", 5)),
+        # dedicated hunt for the candidate of DESIGN.md 5/C01 (rectangles + obtuse cones + gaps in
+        # (eps, eps*W alpha/alpha)); small K so the runs are cheap
+        extra=[({"algos": ["PaVeBaGP", "PaVeBaPartialGP"], "envs": ["post_adv"], "features": {"d8_hunt": True, "kf_ne_m": False}}, 120, 6000)],
         title="valid regions => eps-accurate Pareto set (PaVeBa family, Auer)",
     ),
     "C02": dict(
